@@ -848,6 +848,7 @@ pub fn timeout(rng: &mut Rng) -> Program {
         a.timeout = Some(t);
         a.fail_on_timeout = g.rng.chance(1, 3);
     }
+    a.cfg_order = g.rng.below(4) as u8;
     a.strategy = *g.rng.pick(&[Strategy::RestartOnly, Strategy::Recreate, Strategy::NonRestartable]);
     g.prog.actors.push(a);
     g.layout(nclients);
